@@ -192,6 +192,12 @@ def main():
         level = 'proof'
         if units_ev == [] and bounded_ev:
             level = 'other'
+        try:      # never report more than is claimed for the property (C11: bounded stand-ins plus two single-function units)
+            import claims
+            if claims.CLAIMED.get(a.prop, ('proof',))[0] == 'other':
+                level = 'other'
+        except Exception:
+            pass
         known_failed = len({(r['unit'], o['name']) for r, o, k in known_hits})
         cov = {
             'obligations': n_obl,
